@@ -11,6 +11,11 @@ NOT_CARRIED = [
     "'finite' is a floating-point notion: no theorem, checked by the correspondence (nan/inf never compare equal)",
     "the form factors and the visibility used by the reference solver are the baked ones (their own correctness "
     "is C05/C07); the source's solid-angle shares are recomputed with an independent formula",
+    "C03_diffuse_sampling_independent (kept) asks 'pi*BRDF = rho(wall, band)' of ALL table indices; a table read "
+    "beyond its end returns 0, so that hypothesis only admits reflectance 0 (C03_diffuse_forces_zero). The "
+    "statement that carries clause (4) is C03_diffuse_sampling_independent_bounded (in-range table entries of "
+    "each scene + shape condition on the tables) / C03_diffuse_sampling_independent_vis (entries the two models "
+    "read); non-vacuity with 1x1 against 2x3 directions and reflectances 1/2 .. 1/5: Instances/NonVacuity.v",
 ]
 
 
